@@ -10,6 +10,9 @@
 // intermediate of the standard's own formulation are representable (checked in __int128 first).
 // Result *types* (common period, common rep, convertibility) are compared through compile-time booleans recorded at run time.
 //
+// Structure: per cell only a table of tiny type-dependent functions (one per operation and library) is instantiated;
+// the driver that generates counts, checks domains, leaves breadcrumbs and compares is ordinary non-template code.
+//
 // Build-time selection (one source, many units so that the instantiations compile in parallel and a cell that does not
 // compile on some tree only costs its own unit):
 //   -DC12_FROM_LO=a -DC12_FROM_HI=b   From-period indices of this unit (all 10 To periods)
@@ -91,20 +94,25 @@ constexpr Fac fac(long long n1, long long d1, long long n2, long long d2)
     i128 a = (i128)n1 * d2, b = (i128)d1 * n2;
     i128 g = gcd128(a, b);
     Fac f{};
-    f.fn   = (long long)(a / g);
-    f.fd   = (long long)(b / g);
+    f.fn    = (long long)(a / g);
+    f.fd    = (long long)(b / g);
     i128 gn = gcd128(n1, n2);
     i128 ld = (i128)d1 / gcd128(d1, d2) * d2;
-    f.f1   = (long long)(((i128)n1 / gn) * (ld / d1));
-    f.f2   = (long long)(((i128)n2 / gn) * (ld / d2));
-    f.cn   = (long long)gn;
-    f.cd   = (long long)ld;
+    f.f1    = (long long)(((i128)n1 / gn) * (ld / d1));
+    f.f2    = (long long)(((i128)n2 / gn) * (ld / d2));
+    f.cn    = (long long)gn;
+    f.cd    = (long long)ld;
     return f;
 }
-template <typename R> constexpr bool fits(i128 x)
-{
-    return x >= (i128)std::numeric_limits<R>::min() && x <= (i128)std::numeric_limits<R>::max();
-}
+struct Lim {
+    i128 lo, hi;
+    int digits;
+    bool has(i128 x) const { return x >= lo && x <= hi; }
+};
+template <typename R> constexpr Lim lim_of() { return Lim{(i128)std::numeric_limits<R>::min(), (i128)std::numeric_limits<R>::max(), std::numeric_limits<R>::digits}; }
+constexpr Lim kL64 = Lim{(i128)std::numeric_limits<i64>::min(), (i128)std::numeric_limits<i64>::max(), 63};
+
+constexpr i128 iabs(i128 a) { return a < 0 ? -a : a; }
 constexpr i128 fdiv(i128 a, i128 b) { return a / b - ((a % b != 0) && ((a < 0) != (b < 0))); } // b > 0
 constexpr i128 cdiv(i128 a, i128 b) { return -fdiv(-a, b); }
 constexpr i128 rdiv_even(i128 a, i128 b) // b > 0 ; nearest, ties to even
@@ -117,7 +125,7 @@ constexpr i128 rdiv_even(i128 a, i128 b) // b > 0 ; nearest, ties to even
 std::string s128(i128 v)
 {
     if (v == 0) { return "0"; }
-    bool neg = v < 0;
+    bool neg            = v < 0;
     unsigned __int128 u = neg ? (unsigned __int128)0 - (unsigned __int128)v : (unsigned __int128)v;
     std::string s;
     while (u) {
@@ -127,11 +135,210 @@ std::string s128(i128 v)
     return neg ? "-" + s : s;
 }
 
+// ------------------------------------------------------------------ the two libraries behind one set of names
+struct EL {
+    template <typename T, typename D> static constexpr auto cast(D const& d) { return ec::duration_cast<T>(d); }
+    template <typename T, typename D> static constexpr auto floor(D const& d) { return ec::floor<T>(d); }
+    template <typename T, typename D> static constexpr auto ceil(D const& d) { return ec::ceil<T>(d); }
+    template <typename T, typename D> static constexpr auto round(D const& d) { return ec::round<T>(d); }
+    template <typename D> static constexpr auto abs(D const& d) { return ec::abs(d); }
+    template <typename D> using tp = ec::time_point<ec::system_clock, D>;
+    template <typename A, typename B> using common = etl::common_type_t<A, B>;
+    template <typename A, typename B> static constexpr bool convertible = etl::is_convertible_v<A, B>;
+};
+struct SL {
+    template <typename T, typename D> static constexpr auto cast(D const& d) { return sc::duration_cast<T>(d); }
+    template <typename T, typename D> static constexpr auto floor(D const& d) { return sc::floor<T>(d); }
+    template <typename T, typename D> static constexpr auto ceil(D const& d) { return sc::ceil<T>(d); }
+    template <typename T, typename D> static constexpr auto round(D const& d) { return sc::round<T>(d); }
+    template <typename D> static constexpr auto abs(D const& d) { return sc::abs(d); }
+    template <typename D> using tp = sc::time_point<sc::system_clock, D>;
+    template <typename A, typename B> using common = std::common_type_t<A, B>;
+    template <typename A, typename B> static constexpr bool convertible = std::is_convertible_v<A, B>;
+};
+
+// ------------------------------------------------------------------ tiny type-dependent operations (L: library, F: From, T: To)
+#define REPF typename F::rep
+#define REPT typename T::rep
+// unary: count of From -> integer observable
+template <typename L, typename F, typename T> long long u_cast(long long c) { return L::template cast<T>(F{(REPF)c}).count(); }
+template <typename L, typename F, typename T> long long u_floor(long long c) { return L::template floor<T>(F{(REPF)c}).count(); }
+template <typename L, typename F, typename T> long long u_ceil(long long c) { return L::template ceil<T>(F{(REPF)c}).count(); }
+template <typename L, typename F, typename T> long long u_round(long long c) { return L::template round<T>(F{(REPF)c}).count(); }
+template <typename L, typename F, typename T> long long u_floor_tp(long long c) { return L::template floor<T>(typename L::template tp<F>{F{(REPF)c}}).time_since_epoch().count(); }
+template <typename L, typename F, typename T> long long u_ceil_tp(long long c) { return L::template ceil<T>(typename L::template tp<F>{F{(REPF)c}}).time_since_epoch().count(); }
+template <typename L, typename F, typename T> long long u_round_tp(long long c) { return L::template round<T>(typename L::template tp<F>{F{(REPF)c}}).time_since_epoch().count(); }
+template <typename L, typename F, typename T> long long u_implicit(long long c)
+{
+    if constexpr (std::is_convertible_v<F, T>) {
+        T t = F{(REPF)c};
+        return t.count();
+    } else {
+        return 0;
+    }
+}
+template <typename L, typename F, typename T> long long u_common(long long c) { return typename L::template common<F, T>(F{(REPF)c}).count(); }
+template <typename L, typename F, typename T> long long u_abs(long long c) { return L::abs(F{(REPF)c}).count(); }
+template <typename L, typename F, typename T> long long u_neg(long long c) { return (-F{(REPF)c}).count(); }
+template <typename L, typename F, typename T> long long u_pos(long long c) { return (+F{(REPF)c}).count(); }
+template <typename L, typename F, typename T> long long u_preinc(long long c) { F d{(REPF)c}; F& r = ++d; return &r == &d ? d.count() : d.count() + 1000003; }
+template <typename L, typename F, typename T> long long u_predec(long long c) { F d{(REPF)c}; F& r = --d; return &r == &d ? d.count() : d.count() + 1000003; }
+template <typename L, typename F, typename T> long long u_postinc_ret(long long c) { F d{(REPF)c}; return (d++).count(); }
+template <typename L, typename F, typename T> long long u_postinc_state(long long c) { F d{(REPF)c}; d++; return d.count(); }
+template <typename L, typename F, typename T> long long u_postdec_ret(long long c) { F d{(REPF)c}; return (d--).count(); }
+template <typename L, typename F, typename T> long long u_postdec_state(long long c) { F d{(REPF)c}; d--; return d.count(); }
+template <typename L, typename F, typename T> long long u_tp_preinc(long long c) { typename L::template tp<F> p{F{(REPF)c}}; return (++p).time_since_epoch().count(); }
+template <typename L, typename F, typename T> long long u_tp_predec(long long c) { typename L::template tp<F> p{F{(REPF)c}}; return (--p).time_since_epoch().count(); }
+template <typename L, typename F, typename T> long long u_tp_postinc_ret(long long c) { typename L::template tp<F> p{F{(REPF)c}}; return (p++).time_since_epoch().count(); }
+template <typename L, typename F, typename T> long long u_tp_postinc_state(long long c) { typename L::template tp<F> p{F{(REPF)c}}; p++; return p.time_since_epoch().count(); }
+template <typename L, typename F, typename T> long long u_tp_postdec_ret(long long c) { typename L::template tp<F> p{F{(REPF)c}}; return (p--).time_since_epoch().count(); }
+template <typename L, typename F, typename T> long long u_tp_postdec_state(long long c) { typename L::template tp<F> p{F{(REPF)c}}; p--; return p.time_since_epoch().count(); }
+// scalar compound
+template <typename L, typename F, typename T> long long k_muleq(long long c, long long k) { F d{(REPF)c}; return (d *= (REPF)k).count(); }
+template <typename L, typename F, typename T> long long k_diveq(long long c, long long k) { F d{(REPF)c}; return (d /= (REPF)k).count(); }
+template <typename L, typename F, typename T> long long k_modeq(long long c, long long k) { F d{(REPF)c}; return (d %= (REPF)k).count(); }
+// binary From x To
+template <typename L, typename F, typename T> long long b_add(long long a, long long b) { return (F{(REPF)a} + T{(REPT)b}).count(); }
+template <typename L, typename F, typename T> long long b_sub(long long a, long long b) { return (F{(REPF)a} - T{(REPT)b}).count(); }
+template <typename L, typename F, typename T> long long b_div(long long a, long long b) { return F{(REPF)a} / T{(REPT)b}; }
+template <typename L, typename F, typename T> long long b_mod(long long a, long long b) { return (F{(REPF)a} % T{(REPT)b}).count(); }
+template <typename L, typename F, typename T> long long b_eq(long long a, long long b) { return F{(REPF)a} == T{(REPT)b}; }
+template <typename L, typename F, typename T> long long b_ne(long long a, long long b) { return F{(REPF)a} != T{(REPT)b}; }
+template <typename L, typename F, typename T> long long b_lt(long long a, long long b) { return F{(REPF)a} < T{(REPT)b}; }
+template <typename L, typename F, typename T> long long b_le(long long a, long long b) { return F{(REPF)a} <= T{(REPT)b}; }
+template <typename L, typename F, typename T> long long b_gt(long long a, long long b) { return F{(REPF)a} > T{(REPT)b}; }
+template <typename L, typename F, typename T> long long b_ge(long long a, long long b) { return F{(REPF)a} >= T{(REPT)b}; }
+#define TPF typename L::template tp<F>{F{(REPF)a}}
+#define TPT typename L::template tp<T>{T{(REPT)b}}
+template <typename L, typename F, typename T> long long b_tp_eq(long long a, long long b) { return TPF == TPT; }
+template <typename L, typename F, typename T> long long b_tp_ne(long long a, long long b) { return TPF != TPT; }
+template <typename L, typename F, typename T> long long b_tp_lt(long long a, long long b) { return TPF < TPT; }
+template <typename L, typename F, typename T> long long b_tp_le(long long a, long long b) { return TPF <= TPT; }
+template <typename L, typename F, typename T> long long b_tp_gt(long long a, long long b) { return TPF > TPT; }
+template <typename L, typename F, typename T> long long b_tp_ge(long long a, long long b) { return TPF >= TPT; }
+// compound From x From
+template <typename L, typename F, typename T> long long c_addeq(long long a, long long b) { F d{(REPF)a}; return (d += F{(REPF)b}).count(); }
+template <typename L, typename F, typename T> long long c_subeq(long long a, long long b) { F d{(REPF)a}; return (d -= F{(REPF)b}).count(); }
+template <typename L, typename F, typename T> long long c_modeq(long long a, long long b) { F d{(REPF)a}; return (d %= F{(REPF)b}).count(); }
+template <typename L, typename F, typename T> long long c_tp_addeq(long long a, long long b) { typename L::template tp<F> p{F{(REPF)a}}; return (p += F{(REPF)b}).time_since_epoch().count(); }
+template <typename L, typename F, typename T> long long c_tp_subeq(long long a, long long b) { typename L::template tp<F> p{F{(REPF)a}}; return (p -= F{(REPF)b}).time_since_epoch().count(); }
+
+enum UOp { U_CAST, U_FLOOR, U_CEIL, U_ROUND, U_FLOOR_TP, U_CEIL_TP, U_ROUND_TP, U_IMPLICIT, U_COMMON, U_ABS, U_NEG, U_POS, U_PREINC, U_PREDEC,
+    U_POSTINC_RET, U_POSTINC_STATE, U_POSTDEC_RET, U_POSTDEC_STATE, U_TP_PREINC, U_TP_PREDEC, U_TP_POSTINC_RET, U_TP_POSTINC_STATE,
+    U_TP_POSTDEC_RET, U_TP_POSTDEC_STATE, U_N };
+char const* const kUName[U_N] = {"duration_cast<To>(from)", "floor<To>(from)", "ceil<To>(from)", "round<To>(from)", "floor<To>(time_point)",
+    "ceil<To>(time_point)", "round<To>(time_point)", "To(from) implicit", "common_type(from)", "abs(d)", "-d", "+d", "++d", "--d", "d++ (returned)",
+    "d++ (state)", "d-- (returned)", "d-- (state)", "++time_point", "--time_point", "time_point++ (returned)", "time_point++ (state)",
+    "time_point-- (returned)", "time_point-- (state)"};
+enum KOp { K_MULEQ, K_DIVEQ, K_MODEQ, K_N };
+char const* const kKName[K_N] = {"d*=k", "d/=k", "d%=k"};
+enum BOp { B_ADD, B_SUB, B_DIV, B_MOD, B_EQ, B_NE, B_LT, B_LE, B_GT, B_GE, B_TP_EQ, B_TP_NE, B_TP_LT, B_TP_LE, B_TP_GT, B_TP_GE, B_N };
+char const* const kBName[B_N] = {"a+b", "a-b", "a/b", "a%b", "a==b", "a!=b", "a<b", "a<=b", "a>b", "a>=b", "tp==tp", "tp!=tp", "tp<tp", "tp<=tp", "tp>tp", "tp>=tp"};
+enum COp { C_ADDEQ, C_SUBEQ, C_MODEQ, C_TP_ADDEQ, C_TP_SUBEQ, C_N };
+char const* const kCName[C_N] = {"d+=d", "d-=d", "d%=d", "time_point+=d", "time_point-=d"};
+
+using Fn1 = long long (*)(long long);
+using Fn2 = long long (*)(long long, long long);
+struct TypeFact {
+    char const* what;
+    bool e, s;
+};
+struct Absent {
+    char const* what;
+    bool present;
+};
+struct IntDesc {
+    char subj[96];
+    Fac F;
+    Lim l1, l2, lc; // From rep, To rep, common rep
+    bool implicit;  // From -> To is a lossless implicit conversion (both libraries agree on that, see type facts)
+    Fn1 ue[U_N], us[U_N];
+    Fn2 ke[K_N], ks[K_N], be[B_N], bs[B_N], ce[C_N], cs[C_N];
+    std::vector<TypeFact> facts;
+    std::vector<Absent> absent;
+};
+
+template <typename A, typename B> constexpr bool can_mul = requires(A a, B b) { a * b; };
+template <typename A, typename B> constexpr bool can_div = requires(A a, B b) { a / b; };
+template <typename A, typename B> constexpr bool can_mod = requires(A a, B b) { a % b; };
+template <typename A, typename B> constexpr bool can_add = requires(A a, B b) { a + b; };
+template <typename A, typename B> constexpr bool can_sub = requires(A a, B b) { a - b; };
+template <typename A, typename B> constexpr bool can_3way = requires(A a, B b) { a <=> b; };
+
+template <typename R1, int I1, typename R2, int I2>
+IntDesc const& int_desc()
+{
+    using EF   = ec::duration<R1, EP<I1>>;
+    using ET   = ec::duration<R2, EP<I2>>;
+    using SF   = sc::duration<R1, SP<I1>>;
+    using ST   = sc::duration<R2, SP<I2>>;
+    using CRep = std::common_type_t<R1, R2>;
+    using ECD  = etl::common_type_t<EF, ET>;
+    using SCD  = std::common_type_t<SF, ST>;
+    using ETPF = ec::time_point<ec::system_clock, EF>;
+    using ETPT = ec::time_point<ec::system_clock, ET>;
+    using STPF = sc::time_point<sc::system_clock, SF>;
+    using STPT = sc::time_point<sc::system_clock, ST>;
+    static IntDesc const d = [] {
+        IntDesc x{};
+        std::snprintf(x.subj, sizeof x.subj, "dur<%s,%lld/%lld>,dur<%s,%lld/%lld>", RepName<R1>::s, Per<I1>::n, Per<I1>::d, RepName<R2>::s, Per<I2>::n, Per<I2>::d);
+        x.F        = fac(Per<I1>::n, Per<I1>::d, Per<I2>::n, Per<I2>::d);
+        x.l1       = lim_of<R1>();
+        x.l2       = lim_of<R2>();
+        x.lc       = lim_of<CRep>();
+        x.implicit = std::is_convertible_v<SF, ST> && etl::is_convertible_v<EF, ET>;
+#define BOTH(ARR, IDX, FN)                                                                                             \
+    x.ARR##e[IDX] = &FN<EL, EF, ET>;                                                                                   \
+    x.ARR##s[IDX] = &FN<SL, SF, ST>;
+        BOTH(u, U_CAST, u_cast) BOTH(u, U_FLOOR, u_floor) BOTH(u, U_CEIL, u_ceil) BOTH(u, U_ROUND, u_round)
+        BOTH(u, U_FLOOR_TP, u_floor_tp) BOTH(u, U_CEIL_TP, u_ceil_tp) BOTH(u, U_ROUND_TP, u_round_tp) BOTH(u, U_IMPLICIT, u_implicit)
+        BOTH(u, U_COMMON, u_common) BOTH(u, U_ABS, u_abs) BOTH(u, U_NEG, u_neg) BOTH(u, U_POS, u_pos) BOTH(u, U_PREINC, u_preinc)
+        BOTH(u, U_PREDEC, u_predec) BOTH(u, U_POSTINC_RET, u_postinc_ret) BOTH(u, U_POSTINC_STATE, u_postinc_state)
+        BOTH(u, U_POSTDEC_RET, u_postdec_ret) BOTH(u, U_POSTDEC_STATE, u_postdec_state) BOTH(u, U_TP_PREINC, u_tp_preinc)
+        BOTH(u, U_TP_PREDEC, u_tp_predec) BOTH(u, U_TP_POSTINC_RET, u_tp_postinc_ret) BOTH(u, U_TP_POSTINC_STATE, u_tp_postinc_state)
+        BOTH(u, U_TP_POSTDEC_RET, u_tp_postdec_ret) BOTH(u, U_TP_POSTDEC_STATE, u_tp_postdec_state)
+        BOTH(k, K_MULEQ, k_muleq) BOTH(k, K_DIVEQ, k_diveq) BOTH(k, K_MODEQ, k_modeq)
+        BOTH(b, B_ADD, b_add) BOTH(b, B_SUB, b_sub) BOTH(b, B_DIV, b_div) BOTH(b, B_MOD, b_mod) BOTH(b, B_EQ, b_eq) BOTH(b, B_NE, b_ne)
+        BOTH(b, B_LT, b_lt) BOTH(b, B_LE, b_le) BOTH(b, B_GT, b_gt) BOTH(b, B_GE, b_ge) BOTH(b, B_TP_EQ, b_tp_eq) BOTH(b, B_TP_NE, b_tp_ne)
+        BOTH(b, B_TP_LT, b_tp_lt) BOTH(b, B_TP_LE, b_tp_le) BOTH(b, B_TP_GT, b_tp_gt) BOTH(b, B_TP_GE, b_tp_ge)
+        BOTH(c, C_ADDEQ, c_addeq) BOTH(c, C_SUBEQ, c_subeq) BOTH(c, C_MODEQ, c_modeq) BOTH(c, C_TP_ADDEQ, c_tp_addeq) BOTH(c, C_TP_SUBEQ, c_tp_subeq)
+#undef BOTH
+        Fac const& F = x.F;
+        x.facts = {
+            {"common_type::period::num", (long long)ECD::period::num == F.cn, (long long)SCD::period::num == F.cn},
+            {"common_type::period::den", (long long)ECD::period::den == F.cd, (long long)SCD::period::den == F.cd},
+            {"common_type::rep", std::is_same_v<typename ECD::rep, CRep>, std::is_same_v<typename SCD::rep, CRep>},
+            {"common_type symmetric", std::is_same_v<ECD, etl::common_type_t<ET, EF>>, std::is_same_v<SCD, std::common_type_t<ST, SF>>},
+            {"decltype(a+b)", std::is_same_v<decltype(EF{} + ET{}), ECD>, std::is_same_v<decltype(SF{} + ST{}), SCD>},
+            {"decltype(a-b)", std::is_same_v<decltype(EF{} - ET{}), ECD>, std::is_same_v<decltype(SF{} - ST{}), SCD>},
+            {"decltype(a%b)", std::is_same_v<decltype(EF{} % ET{}), ECD>, std::is_same_v<decltype(SF{} % ST{}), SCD>},
+            {"decltype(a/b)", std::is_same_v<decltype(EF{} / ET{}), CRep>, std::is_same_v<decltype(SF{} / ST{}), CRep>},
+            {"is_convertible<From,To>", etl::is_convertible_v<EF, ET>, std::is_convertible_v<SF, ST>},
+            {"is_convertible<To,From>", etl::is_convertible_v<ET, EF>, std::is_convertible_v<ST, SF>},
+            {"is_constructible<To,From>", std::is_constructible_v<ET, EF>, std::is_constructible_v<ST, SF>},
+            {"period::num", (long long)EF::period::num == Per<I1>::n, (long long)SF::period::num == Per<I1>::n},
+            {"period::den", (long long)EF::period::den == Per<I1>::d, (long long)SF::period::den == Per<I1>::d},
+            {"decltype(duration_cast<To>)", std::is_same_v<decltype(ec::duration_cast<ET>(EF{})), ET>, std::is_same_v<decltype(sc::duration_cast<ST>(SF{})), ST>},
+            {"decltype(floor<To>(tp))", std::is_same_v<decltype(ec::floor<ET>(ETPF{})), ETPT>, std::is_same_v<decltype(sc::floor<ST>(STPF{})), STPT>},
+            {"common_type<time_point>", std::is_same_v<etl::common_type_t<ETPF, ETPT>, ec::time_point<ec::system_clock, ECD>>,
+                std::is_same_v<std::common_type_t<STPF, STPT>, sc::time_point<sc::system_clock, SCD>>},
+        };
+        x.absent = {
+            {"duration * rep", can_mul<EF, R1>}, {"rep * duration", can_mul<R1, EF>}, {"duration / rep", can_div<EF, R1>},
+            {"duration % rep", can_mod<EF, R1>}, {"duration <=> duration", can_3way<EF, ET>}, {"time_point + duration", can_add<ETPF, EF>},
+            {"duration + time_point", can_add<EF, ETPF>}, {"time_point - duration", can_sub<ETPF, EF>},
+            {"time_point - time_point", can_sub<ETPF, ETPF>}, {"time_point <=> time_point", can_3way<ETPF, ETPT>},
+        };
+        return x;
+    }();
+    return d;
+}
+
 // ------------------------------------------------------------------ per-cell context
 struct Ctx {
     vf::Case* cs;
     bool random;
-    char subj[96];
+    char const* subj;
     std::uint64_t cellhash;
 };
 
@@ -140,7 +347,6 @@ void oracle_disagree(Ctx& c, char const* op, i128 stdv, i128 exact, char const* 
     vf::crumb("oracle", op, "std-vs-exact", "%s %s", c.subj, args);
     vf::diverge("oracles-disagree", "std=" + s128(stdv), "exact=" + s128(exact));
 }
-
 char const* dir_sit(Fac const& F)
 {
     if (F.fn == 1 && F.fd == 1) { return "same-period"; }
@@ -150,7 +356,6 @@ char const* dir_sit(Fac const& F)
 }
 char const* sign_sit(i128 c) { return c < 0 ? "neg" : (c == 0 ? "zero" : "pos"); }
 char const* mag_sit(i128 c) { return (c >= -2000 && c <= 2000) ? "small" : "large"; }
-// where c*fn/fd sits between two integers
 char const* frac_sit(i128 num, i128 den)
 {
     i128 q = fdiv(num, den), r = num - q * den;
@@ -160,53 +365,34 @@ char const* frac_sit(i128 num, i128 den)
     return "tie";
 }
 
-// one compared evaluation of an integer-valued observable
-#define EVAL(OP, SIT, ARGS, EXACT, SEXPR, EEXPR)                                                                       \
-    do {                                                                                                               \
-        i128 const x_      = (EXACT);                                                                                  \
-        long long const s_ = (long long)(SEXPR);                                                                       \
-        if ((i128)s_ != x_) { oracle_disagree(c, OP, s_, x_, ARGS); }                                                  \
-        vf::crumb(c.subj, OP, SIT, "%s", ARGS);                                                                        \
-        long long const e_ = (long long)(EEXPR);                                                                       \
-        vf::cover(OP, vf::mix(c.cellhash, argh), true);                                                                \
-        vf::eq_int("count", e_, s_);                                                                                   \
-    } while (0)
-
-#define EVALB(OP, SIT, ARGS, EXACT, SEXPR, EEXPR)                                                                      \
-    do {                                                                                                               \
-        bool const x_ = (EXACT);                                                                                       \
-        bool const s_ = (SEXPR);                                                                                       \
-        if (s_ != x_) { oracle_disagree(c, OP, s_, x_, ARGS); }                                                        \
-        vf::crumb(c.subj, OP, SIT, "%s", ARGS);                                                                        \
-        bool const e_ = (EEXPR);                                                                                       \
-        vf::cover(OP, vf::mix(c.cellhash, argh), true);                                                                \
-        vf::eq_bool("ret", e_, s_);                                                                                    \
-    } while (0)
-
-void type_fact(Ctx& c, char const* what, bool etl_side, bool std_side)
+// one compared evaluation: reference first, (oracle cross-check), breadcrumb, tetl, account, compare
+void eval1(Ctx& c, char const* op, char const* sit, char const* args, std::uint64_t argh, i128 exact, Fn1 fs, Fn1 fe, long long x, bool boolean = false)
 {
-    vf::crumb(c.subj, what, "type-level", "compile-time boolean");
-    vf::cover("type-level", vf::mix(c.cellhash, vf::fnv(what)), true);
-    vf::eq_bool("value", etl_side, std_side);
+    long long const s = fs(x);
+    if ((i128)s != exact) { oracle_disagree(c, op, s, exact, args); }
+    vf::crumb(c.subj, op, sit, "%s", args);
+    long long const e = fe(x);
+    vf::cover(op, vf::mix(c.cellhash, argh), true);
+    if (boolean) {
+        vf::eq_bool("ret", e != 0, s != 0);
+    } else {
+        vf::eq_int("count", e, s);
+    }
 }
-
-template <typename A, typename B> constexpr bool can_mul = requires(A a, B b) { a * b; };
-template <typename A, typename B> constexpr bool can_div = requires(A a, B b) { a / b; };
-template <typename A, typename B> constexpr bool can_mod = requires(A a, B b) { a % b; };
-template <typename A, typename B> constexpr bool can_add = requires(A a, B b) { a + b; };
-template <typename A, typename B> constexpr bool can_sub = requires(A a, B b) { a - b; };
-template <typename A, typename B> constexpr bool can_3way = requires(A a, B b) { a <=> b; };
-
-void absent(char const* what, bool present)
+void eval2(Ctx& c, char const* op, char const* sit, char const* args, std::uint64_t argh, i128 exact, Fn2 fs, Fn2 fe, long long x, long long y, bool boolean = false)
 {
-    if (!present) {
-        char label[72];
-        std::snprintf(label, sizeof label, "absent-api: %s", what);
-        vf::sample(label, "%s is not provided by tetl (skipped, not a divergence)", what);
+    long long const s = fs(x, y);
+    if ((i128)s != exact) { oracle_disagree(c, op, s, exact, args); }
+    vf::crumb(c.subj, op, sit, "%s", args);
+    long long const e = fe(x, y);
+    vf::cover(op, vf::mix(c.cellhash, argh), true);
+    if (boolean) {
+        vf::eq_bool("ret", e != 0, s != 0);
+    } else {
+        vf::eq_int("count", e, s);
     }
 }
 
-// ------------------------------------------------------------------ count generators
 void push_unique(std::vector<i128>& v, i128 x)
 {
     for (i128 y : v) {
@@ -215,18 +401,18 @@ void push_unique(std::vector<i128>& v, i128 x)
     v.push_back(x);
 }
 
-template <typename R1, typename R2>
-std::vector<i128> unary_counts(Ctx& c, Fac const& F)
+std::vector<i128> unary_counts(Ctx& c, IntDesc const& D)
 {
+    Fac const& F = D.F;
     std::vector<i128> v;
     auto add = [&](i128 x) {
-        if (fits<R1>(x)) { v.push_back(x); }
+        if (D.l1.has(x)) { v.push_back(x); }
     };
     if (c.random) {
         vf::Rng& r = c.cs->rng;
         for (int i = 0; i < 96; ++i) {
-            int bits  = (int)r.below(std::numeric_limits<R1>::digits + 1);
-            i128 mag  = bits == 0 ? 0 : (i128)(r.next() >> (64 - bits));
+            int bits = (int)r.below((std::uint64_t)D.l1.digits + 1);
+            i128 mag = bits == 0 ? 0 : (i128)(r.next() >> (64 - bits));
             add(r.coin() ? mag : -mag);
         }
         for (int i = 0; i < 32; ++i) { add(r.range(-100000, 100000)); }
@@ -253,8 +439,7 @@ std::vector<i128> unary_counts(Ctx& c, Fac const& F)
         }
     }
     // values near powers of two and the limits, directly and scaled by the factors so that results / intermediates land there
-    i128 const bases[] = {(i128)1 << 15, (i128)1 << 31, (i128)1 << 53, (i128)1 << 62, (i128)1 << 63, (i128)std::numeric_limits<R1>::max(),
-        (i128)std::numeric_limits<R2>::max()};
+    i128 const bases[]       = {(i128)1 << 15, (i128)1 << 31, (i128)1 << 53, (i128)1 << 62, (i128)1 << 63, D.l1.hi, D.l2.hi};
     long long const scales[] = {1, F.fn, F.fd, F.f1, F.f2};
     for (i128 b : bases) {
         for (int dlt = -3; dlt <= 3; ++dlt) {
@@ -271,76 +456,48 @@ std::vector<i128> unary_counts(Ctx& c, Fac const& F)
             }
         }
     }
-    add((i128)std::numeric_limits<R1>::min());
-    add((i128)std::numeric_limits<R1>::min() + 1);
+    add(D.l1.lo);
+    add(D.l1.lo + 1);
     return v;
 }
 
-// ------------------------------------------------------------------ integer cell
-template <typename R1, int I1, typename R2, int I2>
+// ------------------------------------------------------------------ integer cell driver
 struct IntCell {
-    using EF   = ec::duration<R1, EP<I1>>;
-    using ET   = ec::duration<R2, EP<I2>>;
-    using SF   = sc::duration<R1, SP<I1>>;
-    using ST   = sc::duration<R2, SP<I2>>;
-    using CRep = std::common_type_t<R1, R2>;
-    using ECD  = etl::common_type_t<EF, ET>;
-    using SCD  = std::common_type_t<SF, ST>;
-    using ETPF = ec::time_point<ec::system_clock, EF>;
-    using ETPT = ec::time_point<ec::system_clock, ET>;
-    using STPF = sc::time_point<sc::system_clock, SF>;
-    using STPT = sc::time_point<sc::system_clock, ST>;
-    static constexpr Fac F = fac(Per<I1>::n, Per<I1>::d, Per<I2>::n, Per<I2>::d);
+    IntDesc const& D;
+    Ctx& c;
+    Fac const& F;
+    IntCell(IntDesc const& d, Ctx& cx) : D(d), c(cx), F(d.F) { }
 
-    static bool cast_ok(i128 cc)
-    {
-        // the standard's formulation: CR = common_type<ToRep, FromRep, intmax_t> = 64 bit; num==1: c/den ; den==1: c*num ; else c*num/den
-        if (!fits<i64>(cc * F.fn)) { return false; }
-        return fits<R2>(cc * F.fn / F.fd);
-    }
-    static bool common_ok1(i128 cc) { return fits<i64>(cc * F.f1) && fits<CRep>(cc * F.f1); }
-    static bool common_ok2(i128 cc) { return fits<i64>(cc * F.f2) && fits<CRep>(cc * F.f2); }
+    // the standard's formulation: CR = common_type<ToRep, FromRep, intmax_t> = 64 bit; num==1: c/den ; den==1: c*num ; else c*num/den
+    bool cast_ok(i128 cc) const { return kL64.has(cc * F.fn) && D.l2.has(cc * F.fn / F.fd); }
+    bool common_ok1(i128 cc) const { return kL64.has(cc * F.f1) && D.lc.has(cc * F.f1); }
+    bool common_ok2(i128 cc) const { return kL64.has(cc * F.f2) && D.lc.has(cc * F.f2); }
 
-    static void types(Ctx& c)
+    void types()
     {
-        type_fact(c, "common_type::period::num", (long long)ECD::period::num == F.cn, (long long)SCD::period::num == F.cn);
-        type_fact(c, "common_type::period::den", (long long)ECD::period::den == F.cd, (long long)SCD::period::den == F.cd);
-        type_fact(c, "common_type::rep", std::is_same_v<typename ECD::rep, CRep>, std::is_same_v<typename SCD::rep, CRep>);
-        type_fact(c, "common_type symmetric", std::is_same_v<ECD, etl::common_type_t<ET, EF>>, std::is_same_v<SCD, std::common_type_t<ST, SF>>);
-        type_fact(c, "decltype(a+b)", std::is_same_v<decltype(EF{} + ET{}), ECD>, std::is_same_v<decltype(SF{} + ST{}), SCD>);
-        type_fact(c, "decltype(a-b)", std::is_same_v<decltype(EF{} - ET{}), ECD>, std::is_same_v<decltype(SF{} - ST{}), SCD>);
-        type_fact(c, "decltype(a%b)", std::is_same_v<decltype(EF{} % ET{}), ECD>, std::is_same_v<decltype(SF{} % ST{}), SCD>);
-        type_fact(c, "decltype(a/b)", std::is_same_v<decltype(EF{} / ET{}), CRep>, std::is_same_v<decltype(SF{} / ST{}), CRep>);
-        type_fact(c, "is_convertible<From,To>", etl::is_convertible_v<EF, ET>, std::is_convertible_v<SF, ST>);
-        type_fact(c, "is_convertible<To,From>", etl::is_convertible_v<ET, EF>, std::is_convertible_v<ST, SF>);
-        type_fact(c, "is_constructible<To,From>", std::is_constructible_v<ET, EF>, std::is_constructible_v<ST, SF>);
-        type_fact(c, "period::num", (long long)EF::period::num == Per<I1>::n, (long long)SF::period::num == Per<I1>::n);
-        type_fact(c, "period::den", (long long)EF::period::den == Per<I1>::d, (long long)SF::period::den == Per<I1>::d);
-        type_fact(c, "decltype(duration_cast<To>)", std::is_same_v<decltype(ec::duration_cast<ET>(EF{})), ET>, std::is_same_v<decltype(sc::duration_cast<ST>(SF{})), ST>);
-        type_fact(c, "decltype(floor<To>(tp))", std::is_same_v<decltype(ec::floor<ET>(ETPF{})), ETPT>, std::is_same_v<decltype(sc::floor<ST>(STPF{})), STPT>);
-        type_fact(c, "common_type<time_point>", std::is_same_v<etl::common_type_t<ETPF, ETPT>, ec::time_point<ec::system_clock, ECD>>,
-            std::is_same_v<std::common_type_t<STPF, STPT>, sc::time_point<sc::system_clock, SCD>>);
-        absent("duration * rep", can_mul<EF, R1>);
-        absent("rep * duration", can_mul<R1, EF>);
-        absent("duration / rep", can_div<EF, R1>);
-        absent("duration % rep", can_mod<EF, R1>);
-        absent("duration <=> duration", can_3way<EF, ET>);
-        absent("time_point + duration", can_add<ETPF, EF>);
-        absent("duration + time_point", can_add<EF, ETPF>);
-        absent("time_point - duration", can_sub<ETPF, EF>);
-        absent("time_point - time_point", can_sub<ETPF, ETPF>);
-        absent("time_point <=> time_point", can_3way<ETPF, ETPT>);
+        for (TypeFact const& f : D.facts) {
+            vf::crumb(c.subj, f.what, "type-level", "compile-time boolean");
+            vf::cover("type-level", vf::mix(c.cellhash, vf::fnv(f.what)), true);
+            vf::eq_bool("value", f.e, f.s);
+        }
+        for (Absent const& a : D.absent) {
+            if (!a.present) {
+                char label[72];
+                std::snprintf(label, sizeof label, "absent-api: %s", a.what);
+                vf::sample(label, "%s is not provided by tetl (skipped, not a divergence)", a.what);
+            }
+        }
     }
 
-    static void unary(Ctx& c, i128 cc)
+    void u(UOp op, char const* sit, char const* args, std::uint64_t argh, i128 exact, long long x) { eval1(c, kUName[op], sit, args, argh, exact, D.us[op], D.ue[op], x); }
+
+    void unary(i128 cc)
     {
         char args[96];
         std::snprintf(args, sizeof args, "count=%s", s128(cc).c_str());
         std::uint64_t const argh = (std::uint64_t)(long long)cc;
-        R1 const v               = (R1)cc;
-        EF const ef{v};
-        SF const sf{v};
-        i128 const num = cc * F.fn; // exact value in To ticks = num / fd
+        long long const x        = (long long)cc;
+        i128 const num           = cc * F.fn; // exact value in To ticks = num / fd
         char sit[96];
         std::snprintf(sit, sizeof sit, "%s,%s,%s,%s", dir_sit(F), sign_sit(cc), frac_sit(num, F.fd), mag_sit(cc));
         char sit0[96];
@@ -348,127 +505,124 @@ struct IntCell {
 
         if (cast_ok(cc)) {
             i128 const tr = num / F.fd; // truncation toward zero
-            EVAL("duration_cast<To>(from)", sit, args, tr, sc::duration_cast<ST>(sf).count(), ec::duration_cast<ET>(ef).count());
+            u(U_CAST, sit, args, argh, tr, x);
             bool const cmp_ok = common_ok1(cc) && common_ok2(tr);
             i128 const fl = fdiv(num, F.fd), ce = cdiv(num, F.fd);
-            if (cmp_ok && fits<R2>(fl)) {
-                EVAL("floor<To>(from)", sit, args, fl, sc::floor<ST>(sf).count(), ec::floor<ET>(ef).count());
-                EVAL("floor<To>(time_point)", sit, args, fl, sc::floor<ST>(STPF{sf}).time_since_epoch().count(), ec::floor<ET>(ETPF{ef}).time_since_epoch().count());
+            if (cmp_ok && D.l2.has(fl)) {
+                u(U_FLOOR, sit, args, argh, fl, x);
+                u(U_FLOOR_TP, sit, args, argh, fl, x);
             }
-            if (cmp_ok && fits<R2>(ce)) {
-                EVAL("ceil<To>(from)", sit, args, ce, sc::ceil<ST>(sf).count(), ec::ceil<ET>(ef).count());
-                EVAL("ceil<To>(time_point)", sit, args, ce, sc::ceil<ST>(STPF{sf}).time_since_epoch().count(), ec::ceil<ET>(ETPF{ef}).time_since_epoch().count());
+            if (cmp_ok && D.l2.has(ce)) {
+                u(U_CEIL, sit, args, argh, ce, x);
+                u(U_CEIL_TP, sit, args, argh, ce, x);
             }
             // round: low = floor, high = low + 1, (dur - low) and (high - dur) in the common type
-            if (cmp_ok && fits<R2>(fl) && fits<R2>(fl + 1) && common_ok2(fl) && common_ok2(fl + 1) && fits<CRep>(cc * F.f1 - fl * F.f2)
-                && fits<CRep>((fl + 1) * F.f2 - cc * F.f1)) {
+            if (cmp_ok && D.l2.has(fl) && D.l2.has(fl + 1) && common_ok2(fl) && common_ok2(fl + 1) && D.lc.has(cc * F.f1 - fl * F.f2)
+                && D.lc.has((fl + 1) * F.f2 - cc * F.f1)) {
                 i128 const rd = rdiv_even(num, F.fd);
-                EVAL("round<To>(from)", sit, args, rd, sc::round<ST>(sf).count(), ec::round<ET>(ef).count());
-                EVAL("round<To>(time_point)", sit, args, rd, sc::round<ST>(STPF{sf}).time_since_epoch().count(), ec::round<ET>(ETPF{ef}).time_since_epoch().count());
+                u(U_ROUND, sit, args, argh, rd, x);
+                u(U_ROUND_TP, sit, args, argh, rd, x);
             }
-            if constexpr (std::is_convertible_v<SF, ST> && etl::is_convertible_v<EF, ET>) { // lossless: fd == 1
-                EVAL("To(from) implicit", sit, args, num, ST(sf).count(), ET(ef).count());
-            }
+            if (D.implicit) { u(U_IMPLICIT, sit, args, argh, num, x); } // lossless: fd == 1
         }
-        if (common_ok1(cc)) { EVAL("common_type(from)", sit0, args, cc * F.f1, SCD(sf).count(), ECD(ef).count()); }
-        if (cc != (i128)std::numeric_limits<R1>::min()) {
-            EVAL("abs(d)", sit0, args, cc < 0 ? -cc : cc, sc::abs(sf).count(), ec::abs(ef).count());
-            EVAL("-d", sit0, args, -cc, (-sf).count(), (-ef).count());
+        if (common_ok1(cc)) { u(U_COMMON, sit0, args, argh, cc * F.f1, x); }
+        if (cc != D.l1.lo) {
+            u(U_ABS, sit0, args, argh, iabs(cc), x);
+            u(U_NEG, sit0, args, argh, -cc, x);
         }
-        EVAL("+d", sit0, args, cc, (+sf).count(), (+ef).count());
-        if (fits<R1>(cc + 1)) {
-            EVAL("++d", sit0, args, cc + 1, (++SF(sf)).count(), (++EF(ef)).count());
-            { SF s2 = sf; EF e2 = ef; EVAL("d++ (returned)", sit0, args, cc, (s2++).count(), (e2++).count()); vf::eq_int("state", e2.count(), s2.count()); }
-            { STPF s2{sf}; ETPF e2{ef}; EVAL("++time_point", sit0, args, cc + 1, (++s2).time_since_epoch().count(), (++e2).time_since_epoch().count()); }
-            { STPF s2{sf}; ETPF e2{ef}; EVAL("time_point++ (returned)", sit0, args, cc, (s2++).time_since_epoch().count(), (e2++).time_since_epoch().count()); vf::eq_int("state", e2.time_since_epoch().count(), s2.time_since_epoch().count()); }
+        u(U_POS, sit0, args, argh, cc, x);
+        if (D.l1.has(cc + 1)) {
+            u(U_PREINC, sit0, args, argh, cc + 1, x);
+            u(U_POSTINC_RET, sit0, args, argh, cc, x);
+            u(U_POSTINC_STATE, sit0, args, argh, cc + 1, x);
+            u(U_TP_PREINC, sit0, args, argh, cc + 1, x);
+            u(U_TP_POSTINC_RET, sit0, args, argh, cc, x);
+            u(U_TP_POSTINC_STATE, sit0, args, argh, cc + 1, x);
         }
-        if (fits<R1>(cc - 1)) {
-            EVAL("--d", sit0, args, cc - 1, (--SF(sf)).count(), (--EF(ef)).count());
-            { SF s2 = sf; EF e2 = ef; EVAL("d-- (returned)", sit0, args, cc, (s2--).count(), (e2--).count()); vf::eq_int("state", e2.count(), s2.count()); }
-            { STPF s2{sf}; ETPF e2{ef}; EVAL("--time_point", sit0, args, cc - 1, (--s2).time_since_epoch().count(), (--e2).time_since_epoch().count()); }
-            { STPF s2{sf}; ETPF e2{ef}; EVAL("time_point-- (returned)", sit0, args, cc, (s2--).time_since_epoch().count(), (e2--).time_since_epoch().count()); vf::eq_int("state", e2.time_since_epoch().count(), s2.time_since_epoch().count()); }
+        if (D.l1.has(cc - 1)) {
+            u(U_PREDEC, sit0, args, argh, cc - 1, x);
+            u(U_POSTDEC_RET, sit0, args, argh, cc, x);
+            u(U_POSTDEC_STATE, sit0, args, argh, cc - 1, x);
+            u(U_TP_PREDEC, sit0, args, argh, cc - 1, x);
+            u(U_TP_POSTDEC_RET, sit0, args, argh, cc, x);
+            u(U_TP_POSTDEC_STATE, sit0, args, argh, cc - 1, x);
         }
-        // scalar compound assignment
         long long const ks[] = {-7, -1, 1, 2, 3, 1000};
         for (long long k : ks) {
             char a2[96];
             std::snprintf(a2, sizeof a2, "count=%s k=%lld", s128(cc).c_str(), k);
             char s2[96];
             std::snprintf(s2, sizeof s2, "%s,%s,%s", sign_sit(cc), mag_sit(cc), k < 0 ? "k<0" : "k>0");
-            if (fits<R1>(cc * k)) { SF s3 = sf; EF e3 = ef; EVAL("d*=k", s2, a2, cc * k, (s3 *= (R1)k).count(), (e3 *= (R1)k).count()); }
-            if (fits<R1>(cc / k)) { SF s3 = sf; EF e3 = ef; EVAL("d/=k", s2, a2, cc / k, (s3 /= (R1)k).count(), (e3 /= (R1)k).count()); }
-            if (fits<R1>(cc / k)) { SF s3 = sf; EF e3 = ef; EVAL("d%=k", s2, a2, cc % k, (s3 %= (R1)k).count(), (e3 %= (R1)k).count()); }
+            std::uint64_t const h2 = vf::mix(argh, (std::uint64_t)k);
+            if (D.l1.has(cc * k)) { eval2(c, kKName[K_MULEQ], s2, a2, h2, cc * k, D.ks[K_MULEQ], D.ke[K_MULEQ], x, k); }
+            if (D.l1.has(cc / k)) {
+                eval2(c, kKName[K_DIVEQ], s2, a2, h2, cc / k, D.ks[K_DIVEQ], D.ke[K_DIVEQ], x, k);
+                eval2(c, kKName[K_MODEQ], s2, a2, h2, cc % k, D.ks[K_MODEQ], D.ke[K_MODEQ], x, k);
+            }
         }
     }
 
-    static void binary(Ctx& c, i128 c1, i128 c2)
+    void b(BOp op, char const* sit, char const* args, std::uint64_t argh, i128 exact, long long x, long long y, bool boolean)
+    {
+        eval2(c, kBName[op], sit, args, argh, exact, D.bs[op], D.be[op], x, y, boolean);
+    }
+    void binary(i128 c1, i128 c2)
     {
         if (!common_ok1(c1) || !common_ok2(c2)) { return; }
-        i128 const a = c1 * F.f1, b = c2 * F.f2;
+        i128 const a = c1 * F.f1, bb = c2 * F.f2;
         char args[96];
         std::snprintf(args, sizeof args, "lhs=%s rhs=%s", s128(c1).c_str(), s128(c2).c_str());
         std::uint64_t const argh = vf::mix((std::uint64_t)(long long)c1, (std::uint64_t)(long long)c2);
-        EF const ef{(R1)c1};
-        SF const sf{(R1)c1};
-        ET const et{(R2)c2};
-        ST const st{(R2)c2};
+        long long const x = (long long)c1, y = (long long)c2;
         char sit[96];
-        std::snprintf(sit, sizeof sit, "%s,lhs-%s,rhs-%s,%s", dir_sit(F), sign_sit(c1), sign_sit(c2), a == b ? "equal" : (a < b ? "lhs<rhs" : "lhs>rhs"));
-        if (fits<CRep>(a + b)) { EVAL("a+b", sit, args, a + b, (sf + st).count(), (ef + et).count()); }
-        if (fits<CRep>(a - b)) { EVAL("a-b", sit, args, a - b, (sf - st).count(), (ef - et).count()); }
-        if (b != 0 && fits<CRep>(a / b)) {
-            EVAL("a/b", sit, args, a / b, sf / st, ef / et);
-            EVAL("a%b", sit, args, a % b, (sf % st).count(), (ef % et).count());
+        std::snprintf(sit, sizeof sit, "%s,lhs-%s,rhs-%s,%s", dir_sit(F), sign_sit(c1), sign_sit(c2), a == bb ? "equal" : (a < bb ? "lhs<rhs" : "lhs>rhs"));
+        if (D.lc.has(a + bb)) { b(B_ADD, sit, args, argh, a + bb, x, y, false); }
+        if (D.lc.has(a - bb)) { b(B_SUB, sit, args, argh, a - bb, x, y, false); }
+        if (bb != 0 && D.lc.has(a / bb)) {
+            b(B_DIV, sit, args, argh, a / bb, x, y, false);
+            b(B_MOD, sit, args, argh, a % bb, x, y, false);
         }
-        EVALB("a==b", sit, args, a == b, sf == st, ef == et);
-        EVALB("a!=b", sit, args, a != b, sf != st, ef != et);
-        EVALB("a<b", sit, args, a < b, sf < st, ef < et);
-        EVALB("a<=b", sit, args, a <= b, sf <= st, ef <= et);
-        EVALB("a>b", sit, args, a > b, sf > st, ef > et);
-        EVALB("a>=b", sit, args, a >= b, sf >= st, ef >= et);
-        {
-            ETPF const etf{ef};
-            ETPT const ett{et};
-            STPF const stf{sf};
-            STPT const stt{st};
-            EVALB("tp==tp", sit, args, a == b, stf == stt, etf == ett);
-            EVALB("tp!=tp", sit, args, a != b, stf != stt, etf != ett);
-            EVALB("tp<tp", sit, args, a < b, stf < stt, etf < ett);
-            EVALB("tp<=tp", sit, args, a <= b, stf <= stt, etf <= ett);
-            EVALB("tp>tp", sit, args, a > b, stf > stt, etf > ett);
-            EVALB("tp>=tp", sit, args, a >= b, stf >= stt, etf >= ett);
-        }
+        b(B_EQ, sit, args, argh, a == bb, x, y, true);
+        b(B_NE, sit, args, argh, a != bb, x, y, true);
+        b(B_LT, sit, args, argh, a < bb, x, y, true);
+        b(B_LE, sit, args, argh, a <= bb, x, y, true);
+        b(B_GT, sit, args, argh, a > bb, x, y, true);
+        b(B_GE, sit, args, argh, a >= bb, x, y, true);
+        b(B_TP_EQ, sit, args, argh, a == bb, x, y, true);
+        b(B_TP_NE, sit, args, argh, a != bb, x, y, true);
+        b(B_TP_LT, sit, args, argh, a < bb, x, y, true);
+        b(B_TP_LE, sit, args, argh, a <= bb, x, y, true);
+        b(B_TP_GT, sit, args, argh, a > bb, x, y, true);
+        b(B_TP_GE, sit, args, argh, a >= bb, x, y, true);
     }
-
     // same-type compound assignment (second operand re-typed as From)
-    static void compound(Ctx& c, i128 c1, i128 c2)
+    void compound(i128 c1, i128 c2)
     {
-        if (!fits<R1>(c2)) { return; }
+        if (!D.l1.has(c2)) { return; }
         char args[96];
         std::snprintf(args, sizeof args, "lhs=%s rhs=%s", s128(c1).c_str(), s128(c2).c_str());
         std::uint64_t const argh = vf::mix((std::uint64_t)(long long)c1, (std::uint64_t)(long long)c2 + 99);
+        long long const x = (long long)c1, y = (long long)c2;
         char sit[96];
         std::snprintf(sit, sizeof sit, "lhs-%s,rhs-%s", sign_sit(c1), sign_sit(c2));
-        EF const e1{(R1)c1}, e2{(R1)c2};
-        SF const s1{(R1)c1}, s2{(R1)c2};
-        if (fits<R1>(c1 + c2)) {
-            { SF s = s1; EF e = e1; EVAL("d+=d", sit, args, c1 + c2, (s += s2).count(), (e += e2).count()); }
-            { STPF s{s1}; ETPF e{e1}; EVAL("time_point+=d", sit, args, c1 + c2, (s += s2).time_since_epoch().count(), (e += e2).time_since_epoch().count()); }
+        if (D.l1.has(c1 + c2)) {
+            eval2(c, kCName[C_ADDEQ], sit, args, argh, c1 + c2, D.cs[C_ADDEQ], D.ce[C_ADDEQ], x, y);
+            eval2(c, kCName[C_TP_ADDEQ], sit, args, argh, c1 + c2, D.cs[C_TP_ADDEQ], D.ce[C_TP_ADDEQ], x, y);
         }
-        if (fits<R1>(c1 - c2)) {
-            { SF s = s1; EF e = e1; EVAL("d-=d", sit, args, c1 - c2, (s -= s2).count(), (e -= e2).count()); }
-            { STPF s{s1}; ETPF e{e1}; EVAL("time_point-=d", sit, args, c1 - c2, (s -= s2).time_since_epoch().count(), (e -= e2).time_since_epoch().count()); }
+        if (D.l1.has(c1 - c2)) {
+            eval2(c, kCName[C_SUBEQ], sit, args, argh, c1 - c2, D.cs[C_SUBEQ], D.ce[C_SUBEQ], x, y);
+            eval2(c, kCName[C_TP_SUBEQ], sit, args, argh, c1 - c2, D.cs[C_TP_SUBEQ], D.ce[C_TP_SUBEQ], x, y);
         }
-        if (c2 != 0 && fits<R1>(c1 / c2)) { SF s = s1; EF e = e1; EVAL("d%=d", sit, args, c1 % c2, (s %= s2).count(), (e %= e2).count()); }
+        if (c2 != 0 && D.l1.has(c1 / c2)) { eval2(c, kCName[C_MODEQ], sit, args, argh, c1 % c2, D.cs[C_MODEQ], D.ce[C_MODEQ], x, y); }
     }
 
-    static void run(Ctx& c)
+    void run()
     {
-        std::snprintf(c.subj, sizeof c.subj, "dur<%s,%lld/%lld>,dur<%s,%lld/%lld>", RepName<R1>::s, Per<I1>::n, Per<I1>::d, RepName<R2>::s, Per<I2>::n, Per<I2>::d);
-        c.cellhash = vf::fnv(c.subj);
-        if (!c.random) { types(c); }
-        std::vector<i128> const us = unary_counts<R1, R2>(c, F);
-        for (i128 cc : us) { unary(c, cc); }
+        c.subj     = D.subj;
+        c.cellhash = vf::fnv(D.subj);
+        if (!c.random) { types(); }
+        std::vector<i128> const us = unary_counts(c, D);
+        for (i128 cc : us) { unary(cc); }
         // binary: a thinned list of left operands x right operands chosen around lhs (in common ticks) and around zero
         std::size_t const step = c.random ? 2 : (c.cs->tier == vf::Tier::thorough ? 3 : 9);
         for (std::size_t i = 0; i < us.size(); i += step) {
@@ -483,20 +637,126 @@ struct IntCell {
             push_unique(rs, near * 2 + 1);
             if (c.random) { push_unique(rs, c.cs->rng.range(-100000, 100000)); }
             for (i128 c2 : rs) {
-                if (fits<R2>(c2)) { binary(c, c1, c2); }
-                compound(c, c1, c2);
+                if (D.l2.has(c2)) { binary(c1, c2); }
+                compound(c1, c2);
             }
         }
         if (vf::want_sample("cell")) { vf::sample("cell", "%s: %zu counts x unary ops, %zu left operands x ~14 right operands x binary ops", c.subj, us.size(), us.size() / step + 1); }
     }
 };
+template <typename R1, int I1, typename R2, int I2>
+void run_int_cell(Ctx& c)
+{
+    IntCell cell(int_desc<R1, I1, R2, I2>(), c);
+    cell.run();
+}
 
 // ------------------------------------------------------------------ floating cells
-// a count is the exact rational q/4
-struct Q4 {
-    i128 q;
-    double value() const { return (double)(long long)q / 4.0; }
+// a count is the exact rational q/4; the tiny functions take the count as double (exact: |q| < 2^55)
+template <typename L, typename F, typename T> double f_cast(double c) { return L::template cast<T>(F{(REPF)c}).count(); }
+template <typename L, typename F, typename T> double f_implicit(double c) { T t = F{(REPF)c}; return t.count(); }
+template <typename L, typename F, typename T> double f_common(double c) { return typename L::template common<F, T>(F{(REPF)c}).count(); }
+template <typename L, typename F, typename T> double f_abs(double c) { return L::abs(F{(REPF)c}).count(); }
+template <typename L, typename F, typename T> double f_neg(double c) { return (-F{(REPF)c}).count(); }
+template <typename L, typename F, typename T> double f_mul3(double c) { F d{(REPF)c}; return (d *= (REPF)3).count(); }
+template <typename L, typename F, typename T> double f_div8(double c) { F d{(REPF)c}; return (d /= (REPF)8).count(); }
+template <typename L, typename F, typename T> double g_add(double a, double b) { return (F{(REPF)a} + T{(REPT)b}).count(); }
+template <typename L, typename F, typename T> double g_sub(double a, double b) { return (F{(REPF)a} - T{(REPT)b}).count(); }
+template <typename L, typename F, typename T> double g_div(double a, double b) { return F{(REPF)a} / T{(REPT)b}; }
+template <typename L, typename F, typename T> double g_cmp(double a, double b)
+{
+    F x{(REPF)a};
+    T y{(REPT)b};
+    return (double)((x == y) | (x != y) << 1 | (x < y) << 2 | (x <= y) << 3 | (x > y) << 4 | (x >= y) << 5);
+}
+template <typename L, typename F, typename T> long long h_cast(double c) { return L::template cast<T>(F{c}).count(); }
+template <typename L, typename F, typename T> long long h_floor(double c) { return L::template floor<T>(F{c}).count(); }
+template <typename L, typename F, typename T> long long h_ceil(double c) { return L::template ceil<T>(F{c}).count(); }
+template <typename L, typename F, typename T> long long h_round(double c) { return L::template round<T>(F{c}).count(); }
+
+using FnD1 = double (*)(double);
+using FnD2 = double (*)(double, double);
+using FnH  = long long (*)(double);
+enum FOp { F_CAST, F_IMPLICIT, F_COMMON, F_ABS, F_NEG, F_MUL3, F_DIV8, F_N };
+char const* const kFName[F_N] = {"duration_cast<To>(from)", "To(from) implicit", "common_type(from)", "abs(d)", "-d", "d*=k", "d/=k"};
+enum GOp { G_ADD, G_SUB, G_DIV, G_CMP, G_N };
+char const* const kGName[G_N] = {"a+b", "a-b", "a/b", "compare"};
+enum HOp { H_CAST, H_FLOOR, H_CEIL, H_ROUND, H_N };
+char const* const kHName[H_N] = {"duration_cast<To>(from)", "floor<To>(from)", "ceil<To>(from)", "round<To>(from)"};
+
+struct FloatDesc {
+    char subj[96];
+    Fac F;
+    bool int_source;
+    FnD1 fe[F_N], fs[F_N];
+    FnD2 ge[G_N], gs[G_N];
+    std::vector<TypeFact> facts;
 };
+template <typename R1, int I1, int I2>
+FloatDesc const& tofloat_desc()
+{
+    using EF  = ec::duration<R1, EP<I1>>;
+    using ET  = ec::duration<f64, EP<I2>>;
+    using SF  = sc::duration<R1, SP<I1>>;
+    using ST  = sc::duration<f64, SP<I2>>;
+    using ECD = etl::common_type_t<EF, ET>;
+    using SCD = std::common_type_t<SF, ST>;
+    static FloatDesc const d = [] {
+        FloatDesc x{};
+        std::snprintf(x.subj, sizeof x.subj, "dur<%s,%lld/%lld>,dur<f64,%lld/%lld>", RepName<R1>::s, Per<I1>::n, Per<I1>::d, Per<I2>::n, Per<I2>::d);
+        x.F          = fac(Per<I1>::n, Per<I1>::d, Per<I2>::n, Per<I2>::d);
+        x.int_source = std::is_integral_v<R1>;
+#define BOTH(ARR, IDX, FN)                                                                                             \
+    x.ARR##e[IDX] = &FN<EL, EF, ET>;                                                                                   \
+    x.ARR##s[IDX] = &FN<SL, SF, ST>;
+        BOTH(f, F_CAST, f_cast) BOTH(f, F_IMPLICIT, f_implicit) BOTH(f, F_COMMON, f_common)
+        if constexpr (!std::is_integral_v<R1>) { BOTH(f, F_ABS, f_abs) BOTH(f, F_NEG, f_neg) BOTH(f, F_MUL3, f_mul3) BOTH(f, F_DIV8, f_div8) }
+        BOTH(g, G_ADD, g_add) BOTH(g, G_SUB, g_sub) BOTH(g, G_DIV, g_div) BOTH(g, G_CMP, g_cmp)
+#undef BOTH
+        Fac const& F = x.F;
+        x.facts = {
+            {"common_type::period::num", (long long)ECD::period::num == F.cn, (long long)SCD::period::num == F.cn},
+            {"common_type::period::den", (long long)ECD::period::den == F.cd, (long long)SCD::period::den == F.cd},
+            {"common_type::rep", std::is_same_v<typename ECD::rep, f64>, std::is_same_v<typename SCD::rep, f64>},
+            {"is_convertible<From,To>", etl::is_convertible_v<EF, ET>, std::is_convertible_v<SF, ST>},
+            {"is_convertible<To,From>", etl::is_convertible_v<ET, EF>, std::is_convertible_v<ST, SF>},
+            {"treat_as_floating_point", ec::treat_as_floating_point_v<typename ET::rep>, sc::treat_as_floating_point_v<typename ST::rep>},
+        };
+        return x;
+    }();
+    return d;
+}
+struct FromFloatDesc {
+    char subj[96];
+    Fac F;
+    FnH he[H_N], hs[H_N];
+    std::vector<TypeFact> facts;
+};
+template <int I1, int I2>
+FromFloatDesc const& fromfloat_desc()
+{
+    using EF = ec::duration<f64, EP<I1>>;
+    using ET = ec::duration<i64, EP<I2>>;
+    using SF = sc::duration<f64, SP<I1>>;
+    using ST = sc::duration<i64, SP<I2>>;
+    static FromFloatDesc const d = [] {
+        FromFloatDesc x{};
+        std::snprintf(x.subj, sizeof x.subj, "dur<f64,%lld/%lld>,dur<i64,%lld/%lld>", Per<I1>::n, Per<I1>::d, Per<I2>::n, Per<I2>::d);
+        x.F = fac(Per<I1>::n, Per<I1>::d, Per<I2>::n, Per<I2>::d);
+        x.he[H_CAST] = &h_cast<EL, EF, ET>; x.hs[H_CAST] = &h_cast<SL, SF, ST>;
+        x.he[H_FLOOR] = &h_floor<EL, EF, ET>; x.hs[H_FLOOR] = &h_floor<SL, SF, ST>;
+        x.he[H_CEIL] = &h_ceil<EL, EF, ET>; x.hs[H_CEIL] = &h_ceil<SL, SF, ST>;
+        x.he[H_ROUND] = &h_round<EL, EF, ET>; x.hs[H_ROUND] = &h_round<SL, SF, ST>;
+        x.facts = {
+            {"is_convertible<From,To>", etl::is_convertible_v<EF, ET>, std::is_convertible_v<SF, ST>},
+            {"is_constructible<To,From>", std::is_constructible_v<ET, EF>, std::is_constructible_v<ST, SF>},
+            {"is_constructible<dur<i64>,double>", std::is_constructible_v<ET, double>, std::is_constructible_v<ST, double>},
+        };
+        return x;
+    }();
+    return d;
+}
+
 // exact rational p/r -> is it a double?  (r > 0)
 bool representable(i128 p, i128 r, double& out)
 {
@@ -506,8 +766,7 @@ bool representable(i128 p, i128 r, double& out)
         r /= g;
     }
     if ((r & (r - 1)) != 0) { return false; } // denominator must be a power of two
-    i128 ap = p < 0 ? -p : p;
-    if (ap >= ((i128)1 << 53)) { return false; }
+    if (iabs(p) >= ((i128)1 << 53)) { return false; }
     if (r > ((i128)1 << 60)) { return false; }
     out = (double)(long long)p / (double)(long long)r;
     return true;
@@ -545,241 +804,205 @@ void cmp_f(char const* name, double e, double s, bool has_exact, double exact)
     std::snprintf(sym, sizeof sym, "%s:%s", name, e > s ? "greater-by->1ulp" : "less-by->1ulp");
     vf::diverge(sym, sd(e), sd(s));
 }
-#define EVALF(OP, SIT, ARGS, P, R, SEXPR, EEXPR)                                                                       \
-    do {                                                                                                               \
-        double x_          = 0;                                                                                        \
-        bool const hx_     = representable((P), (R), x_);                                                              \
-        double const s_    = (SEXPR);                                                                                  \
-        vf::crumb(c.subj, OP, SIT, "%s", ARGS);                                                                        \
-        double const e_    = (EEXPR);                                                                                  \
-        vf::cover(OP, vf::mix(c.cellhash, argh), true);                                                                \
-        cmp_f("count", e_, s_, hx_, x_);                                                                               \
-    } while (0)
-
-std::vector<Q4> f_counts(Ctx& c, Fac const& F)
+void evalf1(Ctx& c, char const* op, char const* sit, char const* args, std::uint64_t argh, i128 p, i128 r, FnD1 fs, FnD1 fe, double x)
 {
-    std::vector<Q4> v;
+    double const s = fs(x);
+    vf::crumb(c.subj, op, sit, "%s", args);
+    double const e = fe(x);
+    double ex      = 0;
+    bool const hx  = representable(p, r, ex);
+    vf::cover(op, vf::mix(c.cellhash, argh), true);
+    cmp_f("count", e, s, hx, ex);
+}
+void evalf2(Ctx& c, char const* op, char const* sit, char const* args, std::uint64_t argh, i128 p, i128 r, FnD2 fs, FnD2 fe, double x, double y)
+{
+    double const s = fs(x, y);
+    vf::crumb(c.subj, op, sit, "%s", args);
+    double const e = fe(x, y);
+    double ex      = 0;
+    bool const hx  = representable(p, r, ex);
+    vf::cover(op, vf::mix(c.cellhash, argh), true);
+    cmp_f("count", e, s, hx, ex);
+}
+
+std::vector<i128> f_counts(Ctx& c, Fac const& F) // quarters
+{
+    std::vector<i128> v;
     if (c.random) {
         for (int i = 0; i < 128; ++i) {
             int bits = (int)c.cs->rng.below(50);
             i128 mag = bits == 0 ? 0 : (i128)(c.cs->rng.next() >> (64 - bits));
-            v.push_back(Q4{c.cs->rng.coin() ? mag : -mag});
+            v.push_back(c.cs->rng.coin() ? mag : -mag);
         }
         return v;
     }
     int const dense = c.cs->tier == vf::Tier::thorough ? 8000 : 800;
-    for (int k = -dense; k <= dense; ++k) { v.push_back(Q4{k}); }
+    for (int k = -dense; k <= dense; ++k) { v.push_back(k); }
     for (int k = -40; k <= 40; ++k) {
-        v.push_back(Q4{(i128)k * F.fd * 4});
-        v.push_back(Q4{(i128)k * F.fd * 4 + 1});
-        v.push_back(Q4{(i128)(2 * k + 1) * F.fd * 2}); // (k + 1/2) * fd
+        v.push_back((i128)k * F.fd * 4);
+        v.push_back((i128)k * F.fd * 4 + 1);
+        v.push_back((i128)(2 * k + 1) * F.fd * 2); // (k + 1/2) * fd
     }
     i128 const big[] = {((i128)1 << 32) * 4 + 2, ((i128)1 << 40) * 4 + 1, ((i128)1 << 50) + 1, ((i128)1 << 52) - 1};
     for (i128 b : big) {
-        v.push_back(Q4{b});
-        v.push_back(Q4{-b});
+        v.push_back(b);
+        v.push_back(-b);
     }
     return v;
 }
 
-// f64 -> f64 and i64 -> f64 (target is floating: every conversion is implicit; results may be fractional)
-template <typename R1, int I1, int I2>
-struct ToFloatCell {
-    using EF  = ec::duration<R1, EP<I1>>;
-    using ET  = ec::duration<f64, EP<I2>>;
-    using SF  = sc::duration<R1, SP<I1>>;
-    using ST  = sc::duration<f64, SP<I2>>;
-    using ECD = etl::common_type_t<EF, ET>;
-    using SCD = std::common_type_t<SF, ST>;
-    static constexpr Fac F     = fac(Per<I1>::n, Per<I1>::d, Per<I2>::n, Per<I2>::d);
-    static constexpr bool kInt = std::is_integral_v<R1>;
-
-    static void run(Ctx& c)
-    {
-        std::snprintf(c.subj, sizeof c.subj, "dur<%s,%lld/%lld>,dur<f64,%lld/%lld>", RepName<R1>::s, Per<I1>::n, Per<I1>::d, Per<I2>::n, Per<I2>::d);
-        c.cellhash = vf::fnv(c.subj);
-        if (!c.random) {
-            type_fact(c, "common_type::period::num", (long long)ECD::period::num == F.cn, (long long)SCD::period::num == F.cn);
-            type_fact(c, "common_type::period::den", (long long)ECD::period::den == F.cd, (long long)SCD::period::den == F.cd);
-            type_fact(c, "common_type::rep", std::is_same_v<typename ECD::rep, f64>, std::is_same_v<typename SCD::rep, f64>);
-            type_fact(c, "is_convertible<From,To>", etl::is_convertible_v<EF, ET>, std::is_convertible_v<SF, ST>);
-            type_fact(c, "is_convertible<To,From>", etl::is_convertible_v<ET, EF>, std::is_convertible_v<ST, SF>);
-            type_fact(c, "treat_as_floating_point", ec::treat_as_floating_point_v<typename ET::rep>, sc::treat_as_floating_point_v<typename ST::rep>);
+void run_tofloat(FloatDesc const& D, Ctx& c)
+{
+    Fac const& F = D.F;
+    c.subj       = D.subj;
+    c.cellhash   = vf::fnv(D.subj);
+    if (!c.random) {
+        for (TypeFact const& f : D.facts) {
+            vf::crumb(c.subj, f.what, "type-level", "compile-time boolean");
+            vf::cover("type-level", vf::mix(c.cellhash, vf::fnv(f.what)), true);
+            vf::eq_bool("value", f.e, f.s);
         }
-        std::vector<Q4> const qs = f_counts(c, F);
-        std::size_t nb           = 0;
-        for (std::size_t i = 0; i < qs.size(); ++i) {
-            Q4 q = qs[i];
-            if (kInt) { q.q = (q.q / 4) * 4; } // integer source: whole ticks only
-            if (kInt && i > 0 && qs[i - 1].q / 4 * 4 == q.q) { continue; }
-            R1 const v = kInt ? (R1)(long long)(q.q / 4) : (R1)q.value();
-            char args[96];
-            std::snprintf(args, sizeof args, "count=%s/4", s128(q.q).c_str());
-            std::uint64_t const argh = (std::uint64_t)(long long)q.q;
-            EF const ef{v};
-            SF const sf{v};
-            i128 const p = q.q * F.fn, r = (i128)4 * F.fd; // exact value in To ticks
-            double dummy;
-            char sit[96];
-            std::snprintf(sit, sizeof sit, "%s,%s,%s", dir_sit(F), sign_sit(q.q), representable(p, r, dummy) ? "result-representable" : "result-rounded");
-            EVALF("duration_cast<To>(from)", sit, args, p, r, sc::duration_cast<ST>(sf).count(), ec::duration_cast<ET>(ef).count());
-            EVALF("To(from) implicit", sit, args, p, r, ST(sf).count(), ET(ef).count());
-            EVALF("common_type(from)", sit, args, q.q * F.f1, (i128)4, SCD(sf).count(), ECD(ef).count());
-            if constexpr (!kInt) {
-                EVALF("abs(d)", sit, args, q.q < 0 ? -q.q : q.q, (i128)4, sc::abs(sf).count(), ec::abs(ef).count());
-                EVALF("-d", sit, args, -q.q, (i128)4, (-sf).count(), (-ef).count());
-                { SF s2 = sf; EF e2 = ef; EVALF("d*=k", sit, args, q.q * 3, (i128)4, (s2 *= 3.0).count(), (e2 *= 3.0).count()); }
-                { SF s2 = sf; EF e2 = ef; EVALF("d/=k", sit, args, q.q, (i128)32, (s2 /= 8.0).count(), (e2 /= 8.0).count()); }
-            }
-            // binary against a floating To operand
-            if (i % (c.random ? 2 : 7) == 0) {
-                ++nb;
-                i128 const a4  = q.q * F.f1; // lhs in common ticks, times 4
-                i128 const rq[] = {a4 / F.f2, a4 / F.f2 + 1, -a4 / F.f2, 0, 4, -6, 10, 1001};
-                for (i128 r4 : rq) {
-                    ET const et{(double)(long long)r4 / 4.0};
-                    ST const st{(double)(long long)r4 / 4.0};
-                    i128 const b4 = r4 * F.f2;
-                    char a2[96];
-                    std::snprintf(a2, sizeof a2, "lhs=%s/4 rhs=%s/4", s128(q.q).c_str(), s128(r4).c_str());
-                    char s2[96];
-                    std::snprintf(s2, sizeof s2, "%s,lhs-%s,rhs-%s,%s", dir_sit(F), sign_sit(q.q), sign_sit(r4), a4 == b4 ? "equal" : (a4 < b4 ? "lhs<rhs" : "lhs>rhs"));
-                    EVALF("a+b", s2, a2, a4 + b4, (i128)4, (sf + st).count(), (ef + et).count());
-                    EVALF("a-b", s2, a2, a4 - b4, (i128)4, (sf - st).count(), (ef - et).count());
-                    if (b4 != 0) { EVALF("a/b", s2, a2, b4 < 0 ? -a4 : a4, b4 < 0 ? -b4 : b4, sf / st, ef / et); }
-                    // comparisons are decided on the exactly converted operands whenever those are exact (< 2^53 quarter ticks)
-                    double d1, d2;
-                    if (representable(a4, 4, d1) && representable(b4, 4, d2)) {
-                        bool const se = sf == st, sl = sf < st;
-                        if (se != (a4 == b4) || sl != (a4 < b4)) { oracle_disagree(c, "compare", se, a4 == b4, a2); }
-                        vf::crumb(c.subj, "compare", s2, "%s", a2);
-                        vf::cover("compare (f64)", vf::mix(c.cellhash, vf::mix(argh, (std::uint64_t)(long long)r4)), true);
-                        vf::eq_bool("==", ef == et, a4 == b4);
-                        vf::eq_bool("!=", ef != et, a4 != b4);
-                        vf::eq_bool("<", ef < et, a4 < b4);
-                        vf::eq_bool("<=", ef <= et, a4 <= b4);
-                        vf::eq_bool(">", ef > et, a4 > b4);
-                        vf::eq_bool(">=", ef >= et, a4 >= b4);
-                    }
-                }
-            }
-        }
-        if (vf::want_sample("cell")) { vf::sample("cell", "%s: %zu counts (quarters) x unary ops, %zu x 8 right operands x binary ops", c.subj, qs.size(), nb); }
     }
-};
-
-// f64 -> i64 : explicit casts only (duration_cast / floor / ceil / round)
-template <int I1, int I2>
-struct FromFloatCell {
-    using EF = ec::duration<f64, EP<I1>>;
-    using ET = ec::duration<i64, EP<I2>>;
-    using SF = sc::duration<f64, SP<I1>>;
-    using ST = sc::duration<i64, SP<I2>>;
-    static constexpr Fac F = fac(Per<I1>::n, Per<I1>::d, Per<I2>::n, Per<I2>::d);
-
-    static void one(Ctx& c, char const* op, char const* sit, char const* args, std::uint64_t argh, i128 exact, long long sv, long long ev_)
-    {
-        // the caller made the std call before the crumb and the etl call after it
-        vf::cover(op, vf::mix(c.cellhash, argh), true);
-        if (ev_ == sv || (i128)ev_ == exact) { return; } // same as std, or the exact value where std's double arithmetic rounded across an integer
-        (void)sit;
-        (void)args;
-        vf::eq_int("count", ev_, (i128)sv == exact ? sv : (long long)exact);
-    }
-    static void run(Ctx& c)
-    {
-        std::snprintf(c.subj, sizeof c.subj, "dur<f64,%lld/%lld>,dur<i64,%lld/%lld>", Per<I1>::n, Per<I1>::d, Per<I2>::n, Per<I2>::d);
-        c.cellhash = vf::fnv(c.subj);
-        if (!c.random) {
-            type_fact(c, "is_convertible<From,To>", etl::is_convertible_v<EF, ET>, std::is_convertible_v<SF, ST>);
-            type_fact(c, "is_constructible<To,From>", std::is_constructible_v<ET, EF>, std::is_constructible_v<ST, SF>);
-            type_fact(c, "is_constructible<dur<i64>,double>", std::is_constructible_v<ET, double>, std::is_constructible_v<ST, double>);
+    std::vector<i128> const qs = f_counts(c, F);
+    i128 const lim             = (i128)1 << 55;
+    i128 prev                  = 1; // not a multiple of 4
+    std::size_t nb             = 0;
+    for (std::size_t i = 0; i < qs.size(); ++i) {
+        i128 q = qs[i];
+        if (D.int_source) {
+            q = (q / 4) * 4; // integer source: whole ticks only
+            if (q == prev) { continue; }
+            prev = q;
         }
-        for (Q4 q : f_counts(c, F)) {
-            i128 const p = q.q * F.fn, r = (i128)4 * F.fd;
-            // keep every intermediate (count*num, the converted operands of the comparison) exactly representable
-            i128 const lim = (i128)1 << 52;
-            i128 const ap  = p < 0 ? -p : p;
-            if (ap >= lim || ap / r >= ((i128)1 << 50)) { continue; }
-            i128 const inCommon = q.q * F.f1;
-            if ((inCommon < 0 ? -inCommon : inCommon) >= lim) { continue; }
-            if ((fdiv(p, r) * F.f2 < 0 ? -(fdiv(p, r) * F.f2) : fdiv(p, r) * F.f2) >= lim / 8) { continue; }
-            double const v = q.value();
-            EF const ef{v};
-            SF const sf{v};
-            char args[96];
-            std::snprintf(args, sizeof args, "count=%s/4", s128(q.q).c_str());
-            std::uint64_t const argh = (std::uint64_t)(long long)q.q;
-            char sit[96];
-            std::snprintf(sit, sizeof sit, "%s,%s,%s", dir_sit(F), sign_sit(q.q), frac_sit(p, r));
-            {
-                long long const s = sc::duration_cast<ST>(sf).count();
-                vf::crumb(c.subj, "duration_cast<To>(from)", sit, "%s", args);
-                one(c, "duration_cast<To>(from)", sit, args, argh, p / r, s, ec::duration_cast<ET>(ef).count());
-            }
-            {
-                long long const s = sc::floor<ST>(sf).count();
-                vf::crumb(c.subj, "floor<To>(from)", sit, "%s", args);
-                one(c, "floor<To>(from)", sit, args, argh, fdiv(p, r), s, ec::floor<ET>(ef).count());
-            }
-            {
-                long long const s = sc::ceil<ST>(sf).count();
-                vf::crumb(c.subj, "ceil<To>(from)", sit, "%s", args);
-                one(c, "ceil<To>(from)", sit, args, argh, cdiv(p, r), s, ec::ceil<ET>(ef).count());
-            }
-            {
-                long long const s = sc::round<ST>(sf).count();
-                vf::crumb(c.subj, "round<To>(from)", sit, "%s", args);
-                one(c, "round<To>(from)", sit, args, argh, rdiv_even(p, r), s, ec::round<ET>(ef).count());
+        // keep the integer products tetl/std may form (count * factor) away from 2^63 and inside the exact range of f64
+        if (iabs(q * F.fn) >= lim || iabs(q * F.f1) >= lim) { continue; }
+        double const x = (double)(long long)q / 4.0;
+        char args[96];
+        std::snprintf(args, sizeof args, "count=%s/4", s128(q).c_str());
+        std::uint64_t const argh = (std::uint64_t)(long long)q;
+        i128 const p = q * F.fn, r = (i128)4 * F.fd; // exact value in To ticks
+        double dummy;
+        char sit[96];
+        std::snprintf(sit, sizeof sit, "%s,%s,%s", dir_sit(F), sign_sit(q), representable(p, r, dummy) ? "result-representable" : "result-rounded");
+        evalf1(c, kFName[F_CAST], sit, args, argh, p, r, D.fs[F_CAST], D.fe[F_CAST], x);
+        evalf1(c, kFName[F_IMPLICIT], sit, args, argh, p, r, D.fs[F_IMPLICIT], D.fe[F_IMPLICIT], x);
+        evalf1(c, kFName[F_COMMON], sit, args, argh, q * F.f1, 4, D.fs[F_COMMON], D.fe[F_COMMON], x);
+        if (!D.int_source) {
+            evalf1(c, kFName[F_ABS], sit, args, argh, iabs(q), 4, D.fs[F_ABS], D.fe[F_ABS], x);
+            evalf1(c, kFName[F_NEG], sit, args, argh, -q, 4, D.fs[F_NEG], D.fe[F_NEG], x);
+            evalf1(c, kFName[F_MUL3], sit, args, argh, q * 3, 4, D.fs[F_MUL3], D.fe[F_MUL3], x);
+            evalf1(c, kFName[F_DIV8], sit, args, argh, q, 32, D.fs[F_DIV8], D.fe[F_DIV8], x);
+        }
+        if (i % (c.random ? 2 : 7) != 0) { continue; }
+        ++nb;
+        i128 const a4   = q * F.f1; // lhs in common ticks, times 4
+        i128 const rq[] = {a4 / F.f2, a4 / F.f2 + 1, -a4 / F.f2, 0, 4, -6, 10, 1001};
+        for (i128 r4 : rq) {
+            i128 const b4 = r4 * F.f2;
+            if (iabs(b4) >= lim) { continue; }
+            double const y = (double)(long long)r4 / 4.0;
+            char a2[96];
+            std::snprintf(a2, sizeof a2, "lhs=%s/4 rhs=%s/4", s128(q).c_str(), s128(r4).c_str());
+            char s2[96];
+            std::snprintf(s2, sizeof s2, "%s,lhs-%s,rhs-%s,%s", dir_sit(F), sign_sit(q), sign_sit(r4), a4 == b4 ? "equal" : (a4 < b4 ? "lhs<rhs" : "lhs>rhs"));
+            std::uint64_t const h2 = vf::mix(argh, (std::uint64_t)(long long)r4);
+            evalf2(c, kGName[G_ADD], s2, a2, h2, a4 + b4, 4, D.gs[G_ADD], D.ge[G_ADD], x, y);
+            evalf2(c, kGName[G_SUB], s2, a2, h2, a4 - b4, 4, D.gs[G_SUB], D.ge[G_SUB], x, y);
+            if (b4 != 0) { evalf2(c, kGName[G_DIV], s2, a2, h2, b4 < 0 ? -a4 : a4, iabs(b4), D.gs[G_DIV], D.ge[G_DIV], x, y); }
+            // comparisons are decided on the exactly converted operands whenever those are exact (< 2^53 quarter ticks)
+            double d1, d2;
+            if (representable(a4, 4, d1) && representable(b4, 4, d2)) {
+                int const exact = (a4 == b4) | (a4 != b4) << 1 | (a4 < b4) << 2 | (a4 <= b4) << 3 | (a4 > b4) << 4 | (a4 >= b4) << 5;
+                int const s     = (int)D.gs[G_CMP](x, y);
+                if (s != exact) { oracle_disagree(c, "compare", s, exact, a2); }
+                vf::crumb(c.subj, "compare", s2, "%s", a2);
+                int const e = (int)D.ge[G_CMP](x, y);
+                vf::cover("compare (f64)", vf::mix(c.cellhash, h2), true);
+                char const* const names[6] = {"==", "!=", "<", "<=", ">", ">="};
+                for (int k = 0; k < 6; ++k) { vf::eq_bool(names[k], (e >> k) & 1, (exact >> k) & 1); }
             }
         }
     }
-};
+    if (vf::want_sample("cell")) { vf::sample("cell", "%s: %zu counts (quarters) x unary ops, %zu x 8 right operands x binary ops", c.subj, qs.size(), nb); }
+}
+
+void run_fromfloat(FromFloatDesc const& D, Ctx& c)
+{
+    Fac const& F = D.F;
+    c.subj       = D.subj;
+    c.cellhash   = vf::fnv(D.subj);
+    if (!c.random) {
+        for (TypeFact const& f : D.facts) {
+            vf::crumb(c.subj, f.what, "type-level", "compile-time boolean");
+            vf::cover("type-level", vf::mix(c.cellhash, vf::fnv(f.what)), true);
+            vf::eq_bool("value", f.e, f.s);
+        }
+    }
+    i128 const lim = (i128)1 << 52;
+    for (i128 q : f_counts(c, F)) {
+        i128 const p = q * F.fn, r = (i128)4 * F.fd;
+        // every intermediate (count*num, the operands of the comparison in the common type) stays exactly representable and far from 2^63
+        if (iabs(p) >= lim || iabs(q * F.f1) >= lim || iabs((fdiv(p, r) + 1) * F.f2) >= lim || iabs((fdiv(p, r) - 1) * F.f2) >= lim) { continue; }
+        double const x = (double)(long long)q / 4.0;
+        char args[96];
+        std::snprintf(args, sizeof args, "count=%s/4", s128(q).c_str());
+        std::uint64_t const argh = (std::uint64_t)(long long)q;
+        char sit[96];
+        std::snprintf(sit, sizeof sit, "%s,%s,%s", dir_sit(F), sign_sit(q), frac_sit(p, r));
+        i128 const exact[H_N] = {p / r, fdiv(p, r), cdiv(p, r), rdiv_even(p, r)};
+        for (int op = 0; op < H_N; ++op) {
+            long long const s = D.hs[op](x);
+            vf::crumb(c.subj, kHName[op], sit, "%s", args);
+            long long const e = D.he[op](x);
+            vf::cover(kHName[op], vf::mix(c.cellhash, argh), true);
+            // same as std, or the exact value where std's double arithmetic rounded across an integer
+            if (e == s || (i128)e == exact[op]) { continue; }
+            vf::eq_int("count", e, (i128)s == exact[op] ? s : (long long)exact[op]);
+        }
+    }
+}
+template <typename R1, int I1, int I2> void run_tofloat_cell(Ctx& c) { run_tofloat(tofloat_desc<R1, I1, I2>(), c); }
+template <int I1, int I2> void run_fromfloat_cell(Ctx& c) { run_fromfloat(fromfloat_desc<I1, I2>(), c); }
 
 // ------------------------------------------------------------------ cell table
 using CellFn = void (*)(Ctx&);
-struct Cell {
-    CellFn fn;
-};
-std::vector<Cell>& cells()
+std::vector<CellFn>& cells()
 {
-    static std::vector<Cell> v;
+    static std::vector<CellFn> v;
     return v;
 }
-
 constexpr bool x_pair(int a, int b) { return (a == 0 && b == 8) || (a == 8 && b == 0); }
 
 template <int RS, int I1, int I2>
 void add_cells()
 {
     if constexpr (RS == 0) {
-        cells().push_back({&IntCell<i64, I1, i64, I2>::run});
+        cells().push_back(&run_int_cell<i64, I1, i64, I2>);
     } else if constexpr (RS == 1) {
-        cells().push_back({&IntCell<i32, I1, i32, I2>::run});
+        cells().push_back(&run_int_cell<i32, I1, i32, I2>);
     } else if constexpr (RS == 2) {
-        cells().push_back({&IntCell<i32, I1, i64, I2>::run});
-        cells().push_back({&IntCell<i64, I1, i32, I2>::run});
+        cells().push_back(&run_int_cell<i32, I1, i64, I2>);
+        cells().push_back(&run_int_cell<i64, I1, i32, I2>);
     } else {
-        cells().push_back({&ToFloatCell<f64, I1, I2>::run});
-        cells().push_back({&ToFloatCell<i64, I1, I2>::run});
-        cells().push_back({&FromFloatCell<I1, I2>::run});
+        cells().push_back(&run_tofloat_cell<f64, I1, I2>);
+        cells().push_back(&run_tofloat_cell<i64, I1, I2>);
+        cells().push_back(&run_fromfloat_cell<I1, I2>);
     }
+}
+template <int RS, int I1, int I2>
+void maybe_add()
+{
+    if constexpr ((C12_X ? x_pair(I1, I2) : !x_pair(I1, I2)) && I1 >= C12_FROM_LO && I1 <= C12_FROM_HI) { add_cells<RS, I1, I2>(); }
 }
 template <int RS, int I1, int... I2s>
 void add_row(std::integer_sequence<int, I2s...>)
 {
-    (([] {
-        if constexpr (C12_X ? x_pair(I1, I2s) : !x_pair(I1, I2s)) { add_cells<RS, I1, I2s>(); }
-    })(),
-        ...);
+    (maybe_add<RS, I1, I2s>(), ...);
 }
 template <int RS, int... I1s>
 void add_rows(std::integer_sequence<int, I1s...>)
 {
-    (([] {
-        if constexpr (I1s >= C12_FROM_LO && I1s <= C12_FROM_HI) { add_row<RS, I1s>(std::make_integer_sequence<int, 10>{}); }
-    })(),
-        ...);
+    (add_row<RS, I1s>(std::make_integer_sequence<int, 10>{}), ...);
 }
 void build_cells()
 {
@@ -813,7 +1036,7 @@ void run_case(vf::Case& cs)
     c.cs     = &cs;
     c.random = !cs.enumerated;
     std::size_t cell = cs.enumerated ? (std::size_t)cs.index : (std::size_t)(cs.index % cells().size());
-    cells()[cell].fn(c);
+    cells()[cell](c);
 }
 } // namespace
 
